@@ -74,6 +74,8 @@ mutual
     | TRANSFER_TOKENS | SET_DELEGATE | EMIT (tag : List Nat) (t : Ty)
     /- phase B (first half): serialization of the plain data classes -/
     | PACK
+    /- extension 3, phase 1: deserialization -/
+    | UNPACK (t : Ty)
 end
 
 instance : Inhabited Val := ⟨.unit⟩
@@ -109,6 +111,10 @@ structure Env where
   minBlockTime : Int := 1
   /-- `context.get_voting_power(key_hash)`: voting power of every delegate (by the base58 text of its key hash) -/
   votingPower : List Nat → Int := fun _ => 0
+  /-- the reading of a *text* as a timestamp (UNPACK of a `timestamp` given in its readable form): `none` = not a timestamp
+  notation.  A *parameter* of the model, like the hash functions: every theorem holds for every choice; the run instantiates it
+  with a table of what pytezos' `optimize_timestamp` answers on the texts that occur (that function is property C11's subject) -/
+  readTimestamp : List Nat → Option Int := fun _ => none
   hashes : Hashes := default
   deriving Inhabited
 
